@@ -16,17 +16,22 @@ theorem setZeros_length (b : Bytes) (lo hi : Nat) (h1 : lo ≤ hi) (h2 : hi ≤ 
     (setZeros b lo hi).length = b.length := by
   simp [setZeros]; omega
 
+theorem setFill_length (b : Bytes) (lo hi : Nat) (x : UInt8) (h1 : lo ≤ hi) (h2 : hi ≤ b.length) :
+    (setFill b lo hi x).length = b.length := by
+  simp [setFill]; omega
+
 /-! ### operations on the data pages of the head block -/
 
 theorem good_dataop {P : Nat} (hP : 0 < P) {k k' : Kernel} {v : PVec} {dp p' : Perm} {dl l' : Bool}
     {R : List Blk} (g : GoodL P k (⟨v, dp, dl⟩ :: R)) (hbrk : k'.brk = k.brk)
     (hin : ∀ i, v.base + 1 ≤ i → i < v.base + 1 + pagesOf P v.len → k'.perm i = p' ∧ k'.locked i = l')
     (hout : ∀ i, ¬ (v.base + 1 ≤ i ∧ i < v.base + 1 + pagesOf P v.len) →
-      k'.perm i = k.perm i ∧ k'.locked i = k.locked i) :
+      k'.perm i = k.perm i ∧ k'.locked i = k.locked i)
+    (hal : k'.al = k.al := by simp) (hfl : k'.fr = k.fr := by simp) :
     GoodL P k' (⟨v, p', l'⟩ :: R) := by
   have hb := g.ok _ (List.mem_cons_self)
   have hle : pagesOf P v.len ≤ v.cap / P + 1 := pagesOf_le hP hb.lenle
-  refine good_own hP g hbrk ?_ rfl rfl ?_
+  refine good_own hP g hbrk ?_ rfl rfl ?_ hal hfl
   · intro p hn
     exact hout p (fun h => hn (data_in_block hP hb.lenle h.1 h.2))
   · refine ⟨hb.lenle, hb.buflen, hb.lo, by rw [hbrk]; exact hb.hi, ?_, ?_, hin, ?_⟩
@@ -108,7 +113,12 @@ theorem notin_empty {P : Nat} {v : PVec} (h : v.cap = 0) (p : Nat) : ¬ inBlock 
 
 theorem good_add_empty {P : Nat} (hP : 0 < P) {k : Kernel} {R : List Blk} (g : GoodL P k R)
     (dp : Perm) (dl : Bool) : GoodL P k (⟨PVec.empty, dp, dl⟩ :: R) := by
-  refine ⟨g.start, g.fresh, ?_, ?_, ?_⟩
+  refine ⟨g.start, g.fresh, ?_, ?_, ?_, ?_, g.albase⟩
+  rotate_left 3
+  · intro z
+    rw [ownedB_cons]
+    have : blkP PVec.empty = [] := rfl
+    rw [this, List.nil_append]; exact g.led z
   · intro o ho
     rcases List.mem_cons.mp ho with rfl | ho
     · refine ⟨by simp [PVec.empty], by simp [PVec.empty], ?_, ?_, ?_, ?_, ?_, ?_⟩ <;>
@@ -123,7 +133,14 @@ theorem good_add_empty {P : Nat} (hP : 0 < P) {k : Kernel} {R : List Blk} (g : G
 
 theorem good_remove_empty {P : Nat} {k : Kernel} {b : Blk} {R : List Blk}
     (g : GoodL P k (b :: R)) (hc : b.v.cap = 0) : GoodL P k R := by
-  refine ⟨g.start, g.fresh, fun o ho => g.ok o (by simp [ho]), (List.pairwise_cons.mp g.disj).2, ?_⟩
+  refine ⟨g.start, g.fresh, fun o ho => g.ok o (by simp [ho]), (List.pairwise_cons.mp g.disj).2, ?_, ?_,
+    g.albase⟩
+  rotate_left 1
+  · intro z
+    have := g.led z
+    rw [ownedB_cons] at this
+    have e : blkP b.v = [] := by unfold blkP; rw [if_pos hc]
+    rw [e, List.nil_append] at this; exact this
   intro p hp
   apply g.outside p
   intro o ho
@@ -165,8 +182,8 @@ theorem growCap_ge (cap n : Nat) : n ≤ growCap cap n ∧ 0 < growCap cap n := 
   unfold growCap; omega
 
 theorem good_vecResize {c : Cfg} (hP : 0 < c.P) {m : Mach} {v : PVec} {R : List Blk}
-    (g : GoodL c.P m.k (⟨v, .rw, false⟩ :: R)) (n : Nat) :
-    GoodL c.P (vecResize c m v n).1.k (⟨(vecResize c m v n).2, .rw, false⟩ :: R) := by
+    (g : GoodL c.P m.k (⟨v, .rw, false⟩ :: R)) (n : Nat) (b : UInt8 := 0) :
+    GoodL c.P (vecResize c m v n b).1.k (⟨(vecResize c m v n b).2, .rw, false⟩ :: R) := by
   have ho := g.ok _ (List.mem_cons_self)
   have hlen : v.len ≤ v.cap := ho.lenle
   have hbl : v.buf.length = v.cap := ho.buflen
@@ -175,34 +192,32 @@ theorem good_vecResize {c : Cfg} (hP : 0 < c.P) {m : Mach} {v : PVec} {R : List 
   · exact good_setvec hP g rfl rfl (by simp only []; omega) (by simpa using hbl)
   split
   · exact good_setvec hP g rfl rfl (by simpa) (by
-      simp only []; rw [setZeros_length _ _ _ (by omega) (by omega)]; exact hbl)
+      simp only []; rw [setFill_length _ _ _ _ (by omega) (by omega)]; exact hbl)
   · have hg := growCap_ge v.cap n
     have h1 := good_alloc hP g hg.2 ⟨m.k.brk, growCap v.cap n, n,
-        setZeros ((v.buf ++ zeros (growCap v.cap n)).take (growCap v.cap n)) v.len n⟩
+        setFill ((v.buf ++ zeros (growCap v.cap n)).take (growCap v.cap n)) v.len n b⟩
         rfl rfl hg.1 (by
-          rw [setZeros_length _ _ _ (by omega) (by simp; omega)]; simp)
+          rw [setFill_length _ _ _ _ (by omega) (by simp; omega)]; simp)
     have h2 := h1.perm (List.Perm.swap _ _ _)
     exact good_vecDrop hP (b := ⟨v, .rw, false⟩) h2
 
 theorem tight_vecResize {c : Cfg} {m : Mach} {v : PVec} {R : List Blk}
     (t : TightL c.P m.k (⟨v, .rw, false⟩ :: R)) (g : GoodL c.P m.k (⟨v, .rw, false⟩ :: R))
-    (hP : 0 < c.P) (n : Nat) :
-    TightL c.P (vecResize c m v n).1.k (⟨(vecResize c m v n).2, .rw, false⟩ :: R) := by
+    (hP : 0 < c.P) (n : Nat) (b : UInt8 := 0) :
+    TightL c.P (vecResize c m v n b).1.k (⟨(vecResize c m v n b).2, .rw, false⟩ :: R) := by
   unfold vecResize
   split
   · exact tight_setvec t rfl rfl
   split
   · exact tight_setvec t rfl rfl
   · have hg := growCap_ge v.cap n
-    have nb : Blk := ⟨⟨m.k.brk, growCap v.cap n, n,
-        setZeros ((v.buf ++ zeros (growCap v.cap n)).take (growCap v.cap n)) v.len n⟩, .rw, false⟩
     have ho := g.ok _ (List.mem_cons_self)
     have h1 := good_alloc hP g hg.2 ⟨m.k.brk, growCap v.cap n, n,
-        setZeros ((v.buf ++ zeros (growCap v.cap n)).take (growCap v.cap n)) v.len n⟩
+        setFill ((v.buf ++ zeros (growCap v.cap n)).take (growCap v.cap n)) v.len n b⟩
         rfl rfl hg.1 (by
-          rw [setZeros_length _ _ _ (by have := ho.lenle; omega) (by simp; omega)]; simp)
+          rw [setFill_length _ _ _ _ (by have := ho.lenle; omega) (by simp; omega)]; simp)
     have t1 := (tight_alloc (c := c) (m := m) (size := growCap v.cap n) t ⟨⟨m.k.brk, growCap v.cap n, n,
-        setZeros ((v.buf ++ zeros (growCap v.cap n)).take (growCap v.cap n)) v.len n⟩, .rw, false⟩).perm
+        setFill ((v.buf ++ zeros (growCap v.cap n)).take (growCap v.cap n)) v.len n b⟩, .rw, false⟩).perm
         (List.Perm.swap _ _ _)
     exact tight_vecDrop (b := ⟨v, .rw, false⟩) t1 (h1.ok _ (by simp)) rfl
 
